@@ -100,6 +100,29 @@ fn judge_line(ctx: &mut Ctx, env: &Env, cfg: &Cfg, line: &[u8], class: &str) {
             return;
         }
     }
+    // how the line ends does not matter: last line without a line feed, CR LF, blank lines around it
+    if !line.contains(&b'\n') {
+        let (o_ref, ref_after) = one(cfg, &env.pop, line);
+        let mut crlf = line.to_vec();
+        crlf.extend_from_slice(b"\r\n");
+        let mut framed = b"\n".to_vec();
+        framed.extend_from_slice(line);
+        framed.extend_from_slice(b"\n\n");
+        for (tname, content) in [("no final line feed", line.to_vec()), ("CR LF", crlf), ("blank lines around", framed)] {
+            let t = restore(&env.pop);
+            let o = run_file(cfg, &content, &t);
+            ctx.count("line-terminator-variant");
+            if o != o_ref || snapshot(&t) != ref_after {
+                ctx.violation(
+                    &format!("C02/line-end/{tname}"),
+                    &key,
+                    || format!("line {} ({v:?}) ending with '{tname}': reader {} and {} rows; with a plain line feed: {} and {} rows", show(line), o.label(), snapshot(&t).len(), o_ref.label(), ref_after.len()),
+                    || json!({"line": line, "cfg": cfg.opts, "class": class, "line_end": tname}),
+                );
+                return;
+            }
+        }
+    }
     for (pname, pre) in [("empty", &vec![]), ("populated", &env.pop)] {
         let (o, after) = one(cfg, pre, line);
         if !o.is_ok() {
